@@ -24,6 +24,7 @@ RULE = ("exhaustive: all ordered pairs of permutations of {1..n} for n <= 5 (qui
         "it should be at that point, the semantic content of the instance (common.snapshot) must be unchanged by "
         "every query, mutable arguments must be left unchanged, and every returned object (matrix, full profile, "
         "vote map, flattened list) is overwritten in place before the next question. "
+        "distance_matrix is also handed the same distance as a functools.partial, a lambda and a callable object (user callables sharing one __name__), one after the other on the same profile. "
         "non-trivial = the rankings differ (for distance_matrix: >= 2 distinct orders and some multiplicity > 1)")
 EXHAUSTIVE = {"quick": "all pairs of permutations n<=4; all triples n<=3; all different-length pairs over <=3 alternatives",
               "thorough": "all pairs of permutations n<=5; all triples n<=4; all different-length pairs over <=4 alternatives"}
@@ -135,7 +136,10 @@ def generate(tier, seed):
 #   [0, method, rankings]      append: 0 append_order (one call per ranking), 1 append_order_list, 2 append_vote_map
 #                              (counted), 3 append_order_array, 4 append_vote_map with numpy.int64 counts,
 #                              5 append_order with numpy.int64 ids
-#   [1, which, poison]         M = distance_matrix(inst, distance[which])  -> judged;  poison: M.fill(-3) afterwards
+#   [1, which, poison, wrap]   M = distance_matrix(inst, distance[which])  -> judged;  poison: M.fill(-3) afterwards;
+#                              wrap (optional): the distance is handed over as 0 the library function, 1 a
+#                              functools.partial of it, 2 a lambda calling it, 3 an instance of a callable class — user
+#                              callables that share one __name__ ("partial", "<lambda>") or have none
 #   [2, which, i, j, form, norm]  distance[which](row i, row j) of the distinct orders -> judged; form 0 tuples of
 #                              1-tuples, 1 python lists (must be unchanged afterwards), 2 tuples of numpy.int64;
 #                              norm: kendall_tau_distance(normalise=True) is asked first
@@ -164,7 +168,7 @@ def _gen_script(rng, i):
             k = rng.randint(1, 4)
             script.append([0, rng.randrange(6), [list(rng.choice(pool)) for _ in range(k)]])
         elif x < 0.50:
-            script.append([1, rng.randrange(3), rng.random() < 0.5])
+            script.append([1, rng.randrange(3), rng.random() < 0.5, rng.choice([0, 0, 1, 2, 3])])
         elif x < 0.68:
             script.append([2, rng.randrange(3), rng.randrange(8), rng.randrange(8), rng.randrange(3), rng.random() < 0.4])
         elif x < 0.80:
@@ -191,6 +195,8 @@ def _gen_script(rng, i):
     ws = [0, 1, 2]
     rng.shuffle(ws)
     script += [[1, ws[0], True], [1, ws[1], False], [1, ws[0], False], [1, ws[2], True]]
+    w = rng.choice([1, 2, 3])
+    script += [[1, ws[0], False, w], [1, ws[1], True, w], [1, ws[2], False, w], [1, ws[1], False, 0]]
     return script
 
 
@@ -282,6 +288,26 @@ def _hist_impl(c):
         return {"crash": msg}
 
 
+class _CallableDistance:
+    def __init__(self, fn):
+        self.fn = fn
+
+    def __call__(self, o1, o2):
+        return self.fn(o1, o2)
+
+
+def _wrapped(fn, wrap):
+    """the same distance as a user-supplied callable of another kind (same values expected)"""
+    import functools
+    if wrap == 1:
+        return functools.partial(fn)
+    if wrap == 2:
+        return lambda o1, o2: fn(o1, o2)
+    if wrap == 3:
+        return _CallableDistance(fn)
+    return fn
+
+
 def _hist_run(c, state):
     import numpy as np
     from preflibtools.instances import OrdinalInstance
@@ -324,7 +350,7 @@ def _hist_run(c, state):
                 inst.append_vote_map(vm)
         elif kind == 1:
             before = snapshot(inst)
-            mat = D.distance_matrix(inst, fns[s[1]])
+            mat = D.distance_matrix(inst, _wrapped(fns[s[1]], s[3] if len(s) > 3 else 0))
             obs.append(_mat_obs(mat))
             pure(k, "distance_matrix", before)
             if s[2] and isinstance(mat, np.ndarray):
